@@ -192,6 +192,10 @@ enum Fut {
     One(BoxFut<AsyncFd>),
     Accept(BoxFut<(AsyncFd, a10::net::NoAddress)>),
     Pipe(BoxFut<[AsyncFd; 2]>),
+    /// `socket` and `pipe` futures kept unboxed: their builder method `kind` can then be called
+    /// again at any time (it must be without effect once the operation has been started).
+    Sock(Option<a10::net::Socket>),
+    PipeF(Option<a10::pipe::Pipe>),
     Multi(Pin<Box<a10::net::MultishotAccept<'static>>>),
 }
 
@@ -598,10 +602,8 @@ impl World {
             Cop::Open(k) => Fut::One(Box::pin(
                 a10::fs::OpenOptions::new().read().kind(k.a10()).open(sq, format!("/c07/file{i}").into()),
             )),
-            Cop::Socket(k) => Fut::One(Box::pin(
-                a10::net::socket(sq, a10::net::Domain::IPV4, a10::net::Type::STREAM, None).kind(k.a10()),
-            )),
-            Cop::Pipe(k) => Fut::Pipe(Box::pin(a10::pipe::pipe(sq).kind(k.a10()))),
+            Cop::Socket(k) => Fut::Sock(Some(a10::net::socket(sq, a10::net::Domain::IPV4, a10::net::Type::STREAM, None).kind(k.a10()))),
+            Cop::Pipe(k) => Fut::PipeF(Some(a10::pipe::pipe(sq).kind(k.a10()))),
             Cop::Accept(h) => Fut::Accept(Box::pin(self.href(h).accept::<a10::net::NoAddress>())),
             Cop::Multi(h) => Fut::Multi(Box::pin(self.href(h).multishot_accept())),
             Cop::ToDirect(h) => Fut::One(Box::pin(self.href(h).to_direct_descriptor())),
@@ -618,8 +620,35 @@ impl World {
         // the process descriptor table, independently of what the future returns.
         let scan = self.ops[i].inval && !self.ops[i].finished && self.ops[i].fut.is_some();
         let fds_before = if scan { open_fds() } else { Vec::new() };
+        // A builder method called on an operation that has been started already (one poll in three
+        // of a started socket / pipe): asking for the other kind now must change nothing — the
+        // kernel was asked for the first one (and may have delivered it already).
+        if self.ops[i].started && (self.obs.len() + i) % 3 == 0 {
+            let other = |k: K| if k == K::Regular { a10::fd::Kind::Direct } else { a10::fd::Kind::File };
+            match (self.ops[i].cop, self.ops[i].fut.as_mut()) {
+                (Cop::Socket(k), Some(Fut::Sock(f))) => {
+                    *f = f.take().map(|s| s.kind(other(k)));
+                    self.tags.insert("kind()-called-after-start".into());
+                }
+                (Cop::Pipe(k), Some(Fut::PipeF(f))) => {
+                    *f = f.take().map(|p| p.kind(other(k)));
+                    self.tags.insert("kind()-called-after-start".into());
+                }
+                _ => {}
+            }
+        }
         let Some(fut) = self.ops[i].fut.as_mut() else { return };
         let r = std::panic::catch_unwind(std::panic::AssertUnwindSafe(|| match fut {
+            Fut::Sock(f) => match poll_once(Pin::new(f.as_mut().unwrap()), &waker) {
+                Poll::Pending => PollOut::Pending,
+                Poll::Ready(Ok(fd)) => PollOut::Fds(vec![fd]),
+                Poll::Ready(Err(e)) => PollOut::Err(e),
+            },
+            Fut::PipeF(f) => match poll_once(Pin::new(f.as_mut().unwrap()), &waker) {
+                Poll::Pending => PollOut::Pending,
+                Poll::Ready(Ok(fds)) => PollOut::Fds(Vec::from(fds)),
+                Poll::Ready(Err(e)) => PollOut::Err(e),
+            },
             Fut::One(f) => match poll_once(f.as_mut(), &waker) {
                 Poll::Pending => PollOut::Pending,
                 Poll::Ready(Ok(fd)) => PollOut::Fds(vec![fd]),
